@@ -10,10 +10,9 @@ import time
 
 from hypothesis import strategies as st
 
-import pyrtma.validators as V
 from pyrtma.header import MessageHeader
 from pyrtma.message import Message
-from pyrtma.message_base import MessageBase, RTMAJSONEncoder
+from pyrtma.message_base import RTMAJSONEncoder
 from pyrtma.message_data import MessageData
 
 from vlib import msgs
